@@ -422,6 +422,14 @@ pub fn grid() -> Vec<(String, History)> {
             ops.push(Op::VerifyArchive { h: A0, flags: 0x10 });
             ops.push(Op::Compact { h: A0 });
             ops.push(Op::Enum { h: A0, mask: Mask::Null, cb: Cb::Passive { stop_at: 0 } });
+            // names the compacted archive knows: remove / rename them and look again
+            ops.push(Op::Remove { h: A0, name: nb });
+            ops.push(Op::OpenFile { h: A0, name: nb });
+            ops.push(Op::HasFile { h: A0, name: nb });
+            ops.push(Op::Rename { h: A0, from: idx(&names, "absent.txt"), to: nb });
+            ops.push(Op::OpenFile { h: A0, name: idx(&names, "absent.txt") });
+            ops.push(Op::OpenFile { h: A0, name: nb });
+            ops.push(Op::Read { h: HRef::Live(Kind::File, 9), sz: Sz::NPlus1, null_read: false, null_buf: false });
             ops.push(Op::CloseArchive { h: A0 });
             // after close: open read-only through the C API and keep going
             ops.push(Op::OpenArchive { path: PathRef::Created(0) });
@@ -768,6 +776,65 @@ pub fn random_history(rng: &mut impl Rng, mut specs: Vec<ArchiveSpec>) -> Histor
     }
     for _ in 0..n {
         ops.push(random_op(rng, present, names.len(), disks.len()));
+    }
+    History { disks, names, excl: Excl::current(), ops }
+}
+
+/// A history that lives on one writable archive and a handful of names, so that sequences such
+/// as add → compact → remove → open-file, rename onto a removed name, or replace → flush →
+/// reopen are common instead of one-in-thousands (the general generator spreads its calls over
+/// many handles and the whole name pool).
+pub fn writable_history(rng: &mut impl Rng, specs: Vec<ArchiveSpec>) -> History {
+    let disks: Vec<Disk> = specs.into_iter().map(|spec| Disk::Built { spec, long_path: false }).collect();
+    let names = pool(&disks);
+    let total = names.len();
+    let k = rng.random_range(2..6usize);
+    let mut few: Vec<u16> = vec![];
+    for n in ADD_NAMES.iter().take(rng.random_range(1..4)) {
+        few.push(names.iter().position(|x| x == n).unwrap_or(0) as u16);
+    }
+    while few.len() < k {
+        few.push(rng.random_range(0..total) as u16);
+    }
+    let pick = |rng: &mut _, few: &[u16]| NameRef::Pool(few[Rng::random_range(rng, 0..few.len())]);
+    let mut ops = vec![create2(0, [1u32, 1, 2, 2, 3, 4][rng.random_range(0..6)], rng.random_range(0..4) != 0)];
+    let n = rng.random_range(8..60);
+    for _ in 0..n {
+        let op = match rng.random_range(0..100) {
+            0..24 => Op::Add {
+                h: A0,
+                name: pick(rng, &few),
+                len: [0u16, 1, 100, 511, 512, 513, 3000, 9000][rng.random_range(0..8)],
+                seed: rng.random(),
+                flags: (if rng.random_range(0..3) != 0 { 0x8000_0000 } else { 0 }) | (if rng.random_range(0..5) == 0 { 0x0001_0000 } else { 0 }) | (if rng.random_range(0..3) == 0 { 0x200 } else { 0 }),
+                compression: [0u32, 2, 2, 0x10, 0x12][rng.random_range(0..5)],
+                ex: rng.random_range(0..4) != 0,
+                src_missing: false,
+            },
+            24..36 => Op::Remove { h: A0, name: pick(rng, &few) },
+            36..46 => Op::Rename { h: A0, from: pick(rng, &few), to: pick(rng, &few) },
+            46..52 => Op::Flush { h: A0 },
+            52..62 => Op::Compact { h: A0 },
+            62..76 => Op::OpenFile { h: A0, name: pick(rng, &few) },
+            76..84 => Op::Read { h: HRef::Live(Kind::File, rng.random_range(0..4)), sz: [Sz::N, Sz::NPlus1, Sz::Rand(64)][rng.random_range(0..3)], null_read: false, null_buf: false },
+            84..87 => Op::CloseFile { h: HRef::Live(Kind::File, rng.random_range(0..4)) },
+            87..93 => Op::HasFile { h: A0, name: pick(rng, &few) },
+            93..95 => Op::Enum { h: A0, mask: Mask::Null, cb: Cb::Passive { stop_at: 0 } },
+            95..97 => Op::FindFirst { h: A0, mask: Mask::Star, null_data: false },
+            97..99 => Op::VerifyFile { h: A0, name: pick(rng, &few), flags: [0u32, 1, 2, 4, 7][rng.random_range(0..5)] },
+            _ => Op::Size { h: HRef::Live(Kind::File, rng.random_range(0..4)), high: true },
+        };
+        ops.push(op);
+    }
+    if rng.random_range(0..2) == 0 {
+        // close ⇒ the file on disk agrees with the model; carry on read-only
+        ops.push(Op::CloseArchive { h: A0 });
+        ops.push(Op::OpenArchive { path: PathRef::Created(0) });
+        for _ in 0..rng.random_range(1..6) {
+            ops.push(Op::OpenFile { h: A0, name: pick(rng, &few) });
+            ops.push(Op::Read { h: F0, sz: Sz::NPlus1, null_read: false, null_buf: false });
+        }
+        ops.push(Op::Enum { h: A0, mask: Mask::Null, cb: Cb::Passive { stop_at: 0 } });
     }
     History { disks, names, excl: Excl::current(), ops }
 }
